@@ -26,7 +26,7 @@ pub static DEF: PropDef = PropDef {
     level: "exploration",
     engine: "query",
     rule: "one run = a generated dataset (20..120 rows, 3 metrics, nullable host label, exact-in-f64 values, timestamps placed minutes / hours / days before and slightly after the virtual now, on hour-bucket edges +-1 ns) ingested through the real Ingester with a drawn flush threshold (so the same rows land in 1..k chunks in different orders), on either catalog backend, with either timestamp column type; 6..12 generated SELECTs whose WHERE confines the timestamp to a finite window by construction (comparisons in both operand orders against integer / TIMESTAMP-literal / now()-relative bounds, BETWEEN, =, AND/OR/NOT nests, unions of windows, label predicates, projections, count/sum/min/max/avg, GROUP BY), each run cold and warm, before and after a real compaction cycle, with a tiny or large L1 cache and adaptive indexing on or off; the answer must equal the same SQL on a MemTable of all ingested rows (multiset of canonically rendered rows); distinct = distinct (dataset, query text) hash; non-trivial = the reference answer is non-empty or the window straddles data",
-    quick_runs: 400,
+    quick_runs: 600,
     thorough_runs: 10_000,
     run_cap_ms: 120_000,
     scen,
